@@ -1072,8 +1072,12 @@ void rt_signal_check(struct sthr *me)
 		rt_hash(0x516ULL ^ me->accs);
 		rt_trace("[%6lu T%d] SIGNAL %d delivered at access %lu depth %d\n",
 			(unsigned long) G.seq, me->id, sp.signo, (unsigned long) me->accs, me->sigdepth);
-		if (G.sighandler[sp.signo])
+		if (G.sighandler[sp.signo]) {
+			/* a correct handler preserves errno (POSIX); model that here */
+			int saved_errno = errno;
 			G.sighandler[sp.signo](sp.signo);
+			errno = saved_errno;
+		}
 		rt_sb_drain_all(me);
 		me->sigdepth--;
 		me->sigmask = saved;
